@@ -782,6 +782,8 @@ type meta struct {
 	TokenIPs          int            `json:"token_ips_accepted"`
 	TokenExhLen       int            `json:"token_exhaustive_len"`
 	HistoryCases      int            `json:"history_cases"`
+	OpsCases          int            `json:"ops_cases"`
+	OpsAccepted       int            `json:"ops_cases_delivering_payload"`
 	LimiterCases      int            `json:"limiter_exhausted_cases"`
 	LimiterThrottled  bool           `json:"limiter_was_exhausted"`
 	ConnSkippedPanics int            `json:"conn_inputs_skipped_because_readheader_panics"`
@@ -973,6 +975,7 @@ func main() {
 
 	// connection level and the full proxy
 	runConnCases(*out, r, thorough, &m)
+	runOpsCases(*out, r, thorough, &m)
 	<-e2eDone
 	m.E2E = me2e.E2E
 	m.Kinds = append(m.Kinds, me2e.Kinds...)
